@@ -240,6 +240,17 @@ pub fn load(slot: usize, name: &str, def: Definition, out: &mut Vec<String>) -> 
 /// calling the library, or calls it differently, the record and the library part ways).
 pub static ORACLE_FAILS: std::sync::Mutex<Vec<String>> = std::sync::Mutex::new(Vec::new());
 
+/// Grapheme cluster boundaries of a text straight from the segmentation library, in the hooks' encoding.
+pub fn grapheme_ranges(text: &str) -> Vec<u8> {
+    use bstr::ByteSlice;
+    let mut out = Vec::new();
+    for (a, b, _) in text.as_bytes().grapheme_indices() {
+        out.extend_from_slice(&(a as u32).to_le_bytes());
+        out.extend_from_slice(&(b as u32).to_le_bytes());
+    }
+    out
+}
+
 fn library_result(kind: &str, param: &str, input: &[u8]) -> Option<Vec<u8>> {
     use unicode_normalization::UnicodeNormalization;
     let text = std::str::from_utf8(input).ok()?;
@@ -250,6 +261,7 @@ fn library_result(kind: &str, param: &str, input: &[u8]) -> Option<Vec<u8>> {
         ("unicode", "NFD") => Some(text.nfd().collect::<String>().into_bytes()),
         ("unicode", "NFKC") => Some(text.nfkc().collect::<String>().into_bytes()),
         ("unicode", "NFKD") => Some(text.nfkd().collect::<String>().into_bytes()),
+        ("graphemes", "") => Some(grapheme_ranges(text)),
         ("find_iter", pattern) => {
             // all non-overlapping matches, leftmost first, as the regex engine itself enumerates them
             let re = fancy_regex::Regex::new(pattern).ok()?;
